@@ -74,6 +74,24 @@ def mc_skipscan(ctx, builds):
     return bad
 
 
+def gen_rand_od(ctx, num, grow, laye, procs=8):
+    """spec/Gen_RandOD.tla under tlc -simulate: a tree grown by random insertions, one resolving and one missing path per node;
+    the scanner model (SkipScan) is evaluated on every emitted case (RODEquiv)."""
+    cfg = (f"CONSTANTS MaxNodes = 1 MaxNodes2 = 1 Pool = 4 Layouts = {{0}} Wide = FALSE SMode = \"pairs\" LayE = {laye} LayV = 0 "
+           f"GrowSteps = {grow} EditSteps = 0 FixFound = TRUE FixArr = TRUE FixEmpty = TRUE\nINIT OInit\nNEXT ONext\nINVARIANT OEmit\nINVARIANT RODEquiv\nCHECK_DEADLOCK FALSE\n")
+    parts = parallel(lambda k: ctx.tlc_emit("Gen_RandOD", cfg=cfg, simulate=num, depth=grow + 2, workers=1, timeout=1500, xmx="3g",
+                                            tag=f"Gen_RandOD_w{k}_{laye}", seed=ctx.seed * 1000 + 17 * k + laye, ok_exits=(0, 12)), list(range(procs)), workers=procs)
+    for tr in ctx.tlc_runs[-procs:]:
+        if tr.get("exit") == 12:
+            ctx.add_fail(dict(property=ctx.prop, kind="model", sig="model:SkipScan", shape=dict(kind="model"), build="tlc",
+                              detail="SkipScan!Equiv / InBounds violated on a simulated (text, path) case (Gen_RandOD!RODEquiv)", case={}, replay=dict(harness="Gen_RandOD")))
+            break
+    recs = [r for part in parts for r in part]
+    ctx.log(f"Gen_RandOD (layout {laye}): {len(recs)} (text, path) cases from TLC simulation (trees grown by {grow} random insertions; one resolving and one missing path per node), "
+            f"{sum(1 for r in recs if r['found'])} resolving")
+    return recs
+
+
 def rows_c10(recs):
     rows = []
     for i, r in enumerate(recs):
